@@ -49,6 +49,9 @@ def expand_query(q):
         x[r, :] = 0
     if q.get('kind', 'counts') == 'float':
         x = x + rng.random((n, g)) * mask
+    if q.get('row_scale'):
+        # per-cell magnitude (declared-normalised input: cells of very different overall scale)
+        x = x * np.array(q['row_scale'], dtype=np.float64)[:, None]
     return x.astype(np.dtype(q['dtype']))
 
 
